@@ -116,7 +116,8 @@ func maxi(a, b int) int {
 func c06Jobs(tier string) []string {
 	var jobs []string
 	worlds := []string{"W0", "W0+mutation-second-service", "Wmin+mutation-second-service", "W0+mutation-second-service+third-service",
-		"W0+same-root-name-query-mutation", "W0+mutation-second-service+entity-ref-self", "W0+mutation-second-service+n2-backref-list"}
+		"W0+same-root-name-query-mutation", "W0+mutation-second-service+entity-ref-self", "W0+mutation-second-service+n2-backref-list",
+		"W0+mutation-null-and-empty-results", "Wmin+mutation-null-and-empty-results+mutation-second-service"}
 	k := 4
 	ms := []string{"", "m1", "m2"}
 	if tier == "thorough" {
@@ -172,6 +173,14 @@ func init() {
 				}
 			}
 			cases = append(cases, extra...)
+			// named variants: the operation name travels into the plan
+			var named []Case
+			for _, c := range cases {
+				if strings.HasPrefix(c.Q, "mutation {") && len(c.Q) < 60 {
+					named = append(named, Case{Q: "mutation SaveIt" + strings.TrimPrefix(c.Q, "mutation"), Vars: map[string]interface{}{}, OpName: "SaveIt", Dec: "named"})
+				}
+			}
+			cases = append(cases, named...)
 			for i := from; i < len(cases); i++ {
 				c := cases[i]
 				rp := replayCase{World: wd.Name(), Cfg: cfg.String(), Query: c.Q, Vars: c.Vars, Dec: c.Dec}
@@ -189,6 +198,9 @@ func init() {
 					continue
 				}
 				op := doc.Operations[0]
+				if c.OpName != "" {
+					rp.OpName = c.OpName
+				}
 				body := caseBody(c)
 				fail := func(mode string, sigs []string) {
 					if len(sigs) == 0 {
